@@ -3,6 +3,9 @@ import PhyVerif.Model.C13b
 import PhyVerif.Lemmas.C13
 import PhyVerif.Model.C08
 import PhyVerif.Lemmas.C08
+import PhyVerif.Model.C13c
+import PhyVerif.Spec.C13c
+import PhyVerif.Lemmas.C13c
 /-!
 # C13 — ALF export writes consistent object tables that load back to the same spikes
 Only property theorems + non-vacuity examples; proofs in `Lemmas/C13.lean`.
@@ -82,5 +85,194 @@ theorem reload_templates (inv : Arr → Arr) (label : String) (s : Source) (h : 
 example : labelled "probe00" "spikes.times" = "spikes.times.probe00.npy" := by decide
 example : globMatch "spikes.times*.npy" (labelled "probe00" "spikes.times") = true := by decide
 example : globMatch "templates.waveforms.*.npy" (labelled "p" "templates.waveformsChannels") = false := by decide
+
+end PhyVerif.C13
+
+/-! ## The conversion as a function on directories (`Model/C13c.lean`)
+
+`convertFS cfg v gen ⟨src, out⟩` mirrors `EphysAlfCreator.convert` (alf.py:112-147) step by step on the pair
+(source directory, output directory); every array it writes is computed from the source view `v`.  The theorems
+below are about ALL views, directories, labels, generators. -/
+namespace PhyVerif.C13
+
+/-- FIRST DIMENSIONS, every file of every object, with or without label.  For every source view whose
+per-spike / per-channel vectors have one length (`ViewOK`: asserted by the loader, model.py:351-403), every
+source directory whose copied tables have the model's row counts (`SrcOK`: asserted by the loader for
+`spike_clusters.npy`, `spike_templates.npy`, `channel_positions.npy`; the optional `channel_probe.npy`,
+`channel_labels.npy`, `cluster_probes.npy`, `cluster_shanks.npy` are copied verbatim, so an inconsistent one is
+exported inconsistent) and every output directory that is consistent beforehand (e.g. empty): whatever `convert`
+does (return or raise), every `spikes.* / clusters.* / templates.* / channels.*` file of the output directory has
+as first dimension `len(spike_samples)` / `n_clusters v` (one per id up to the highest, or one per template when
+nothing was curated) / `n_templates` / `len(channel_mapping)`.  The counts are COMPUTED by the model from `v`
+(`sizesOf`), the rows of each file are the rows of the array the step writes. -/
+theorem export_first_dims (cfg : Cfg) (v : View) (gen : Nat → String) (fs : FS)
+    (hv : ViewOK v) (hs : SrcOK v fs.src) (ho : RowsOK v fs.out) :
+    RowsOK v (convertFS cfg v gen fs).fs.out :=
+  Lemmas.export_first_dims cfg v gen fs hv hs ho
+
+/-- A conversion in the domain (`Convertible`: target ≠ source, a Kilosort/phy source without ALF cluster
+tables) returns normally.  Outside: target = source raises IOError (`refusal_frame`); a source that already
+holds `clusters.channels.npy` makes the real code raise FileNotFoundError at alf.py:224 (reproduced,
+see the harness tally `out-of-domain`), which the model mirrors as `Err.noClusterChannels`; a label containing
+`/` makes `Path.with_suffix` raise ValueError at alf.py:303 (reproduced; `Err.badLabel`). -/
+theorem export_succeeds (cfg : Cfg) (v : View) (gen : Nat → String) (fs : FS) (h : Convertible cfg fs) :
+    (convertFS cfg v gen fs).err = none :=
+  Lemmas.export_succeeds cfg v gen fs h
+
+/-- The file table of `Model/C13.lean` (`convert`, 18 tables) is written by the directory-level model: every
+row `(name, k)` of it is a file of the output directory whose first dimension is `k`, the sizes being those
+computed from the source view. -/
+theorem export_table_written (cfg : Cfg) (v : View) (gen : Nat → String) (fs : FS) (hc : Convertible cfg fs)
+    (hv : ViewOK v) (hs : SrcOK v fs.src) (ho : RowsOK v fs.out) (src out : String)
+    (files : List (Name × Nat)) (h : convert src out cfg.label (sizesOf v) = some files) :
+    ∀ f ∈ files, ∃ e, (f.1, e) ∈ (convertFS cfg v gen fs).fs.out ∧ firstDim f.1 e = f.2 :=
+  Lemmas.export_table_written cfg v gen fs hc hv hs ho src out files h
+
+/-- The count of clusters the export uses is the number of cluster waveform blocks of C08's loader model. -/
+theorem nClusters_eq_loadClusters (v : View) (W : List C09.Mat) (chans : List (List Nat)) (ns nc : Nat)
+    (hW : W.length = v.nTemplates) :
+    nClusters v = (C08.loadClusters W chans v.spikeTemplates v.spikeClusters ns nc).2 :=
+  Lemmas.nClusters_eq_loadClusters v W chans ns nc hW
+
+/-- ONE UNIQUE IDENTIFIER PER CLUSTER.  The generator is a parameter (`gen k` = value of the k-th `uuid4()`
+call); under its contract — the first `n_clusters` calls return distinct values — the identifier file, under
+its labelled name, holds the header line followed by exactly `n_clusters v` pairwise distinct identifiers. -/
+theorem export_uuids (cfg : Cfg) (v : View) (gen : Nat → String) (fs : FS) (h : Convertible cfg fs)
+    (hg : GenDistinct gen (nClusters v)) :
+    ∃ lines, (convertFS cfg v gen fs).fs.out.lookup (labelled' cfg.label ["clusters", "uuids", "csv"]) =
+        some (fresh (lines.map Row.s)) ∧ UuidOK (nClusters v) lines :=
+  Lemmas.export_uuids cfg v gen fs h hg
+
+/-- the executable check the driver applies to the lines of the REAL identifier file decides `UuidOK` -/
+theorem uuid_check_sound (n : Nat) (lines : List String) : uuidOKb n lines = true ↔ UuidOK n lines :=
+  Lemmas.uuidOKb_iff n lines
+
+/-- FRAME, for the whole conversion and every outcome (return or raise): every source file other than the
+temporary whitened-data file and the three spike-waveform subset files is the same entry (same bytes) before
+and after, and no other file appears; after a normal return `temp_wh.dat` is gone; without raw data nothing
+but `temp_wh.dat` changes at all; with raw data (and a target ≠ source) the three subset files exist. -/
+theorem export_frame (cfg : Cfg) (v : View) (gen : Nat → String) (fs : FS) :
+    (∀ n, n ∉ subsetFiles → n ≠ ["temp_wh", "dat"] →
+        (convertFS cfg v gen fs).fs.src.lookup n = fs.src.lookup n) ∧
+    ((convertFS cfg v gen fs).err = none → (convertFS cfg v gen fs).fs.src.has ["temp_wh", "dat"] = false) ∧
+    (cfg.hasTraces = false → ∀ n, n ≠ ["temp_wh", "dat"] →
+        (convertFS cfg v gen fs).fs.src.lookup n = fs.src.lookup n) ∧
+    (cfg.hasTraces = true → cfg.sameDir = false → ∀ n ∈ subsetFiles, (convertFS cfg v gen fs).fs.src.has n = true) :=
+  Lemmas.export_frame cfg v gen fs
+
+/-- the same clause as the decidable predicate the driver evaluates on two REAL listings of the source
+directory (`frameOKb`): it holds between the source before and after every conversion that returns -/
+theorem export_frame_decided (cfg : Cfg) (v : View) (gen : Nat → String) (fs : FS) (hn : fs.src.keys.Nodup)
+    (he : (convertFS cfg v gen fs).err = none) :
+    frameOKb fs.src (convertFS cfg v gen fs).fs.src = true :=
+  Lemmas.export_frame_decided cfg v gen fs hn he
+
+/-- REFUSAL: when the target resolves to the source directory the conversion raises before touching anything:
+both directories are exactly what they were. -/
+theorem refusal_frame (cfg : Cfg) (v : View) (gen : Nat → String) (fs : FS) (h : cfg.sameDir = true) :
+    convertFS cfg v gen fs = ⟨fs, some .sameDir⟩ :=
+  Lemmas.refusal_frame cfg v gen fs h
+
+/-- TIMES IN SECONDS: `times = samples / rate` over the rationals: as many times as samples, and each time
+multiplied by the sampling rate is the sample.  (`rate ≠ 0`: the loader reads `sample_rate` from params.py;
+a zero rate makes the real division produce inf/nan with a RuntimeWarning.) -/
+theorem times_in_seconds (rate : Rat) (samples : List Int) (hr : rate ≠ 0) :
+    (timesOf rate samples).length = samples.length ∧
+    ∀ (i : Nat) (_ : i < samples.length),
+      (timesOf rate samples).getD i 0 * rate = (samples.getD i 0 : Int) :=
+  Lemmas.times_in_seconds rate samples hr
+
+/-- THE TWO LAYOUTS of the source's spike times (`_load_spike_samples`, model.py:644-662).  From `spike_times.npy`
+(in samples) the view's times are `samples / rate`; from `spikes.times*.npy` (in seconds) the view's times are the
+file's values VERBATIM — never recomputed from the samples — and the samples are the stored ones or, when there is
+no `spikes.samples*.npy`, `round(times * rate)` to the nearest integer with ties to even. -/
+theorem load_layouts (rate : Rat) :
+    (∀ s, loadSpikeSamples rate (.inSamples s) = (s, timesOf rate s)) ∧
+    (∀ t s, (loadSpikeSamples rate (.inSeconds t s)).2 = t) ∧
+    (∀ t s, (loadSpikeSamples rate (.inSeconds t (some s))).1 = s) ∧
+    (∀ t, (loadSpikeSamples rate (.inSeconds t none)).1 = t.map fun x => roundHalfEven (x * rate)) :=
+  Lemmas.load_layouts rate
+
+/-- `np.round`: within half a unit of its argument, and even at an exact tie -/
+theorem roundHalfEven_spec (q : Rat) :
+    ((roundHalfEven q : Int) : Rat) - q ≤ 1 / 2 ∧ q - ((roundHalfEven q : Int) : Rat) ≤ 1 / 2 ∧
+    (q - (q.floor : Rat) = 1 / 2 → roundHalfEven q % 2 = 0) :=
+  Lemmas.roundHalfEven_spec q
+
+/-- … and the view's times (seconds) and samples are the arrays the conversion leaves in
+`spikes.times[.label].npy` and `spikes.samples[.label].npy`: the export writes `model.spike_times` itself, it does
+not recompute the times from the samples (for a source given in seconds with sub-sample precision the two differ). -/
+theorem export_times_samples (cfg : Cfg) (v : View) (gen : Nat → String) (fs : FS) (h : Convertible cfg fs) :
+    (convertFS cfg v gen fs).fs.out.lookup (labelled' cfg.label ["spikes", "times", "npy"]) =
+      some (fresh (v.times.map Row.q)) ∧
+    (convertFS cfg v gen fs).fs.out.lookup (labelled' cfg.label ["spikes", "samples", "npy"]) =
+      some (fresh (v.samples.map Row.z)) :=
+  Lemmas.export_times_samples cfg v gen fs h
+
+/-- THE ID TABLES: for a conversion into an empty output directory, `spikes.clusters[.label].npy` and
+`spikes.templates[.label].npy` — copied from `spike_clusters.npy` / `spike_templates.npy` (squeezed when stored as
+`(n,1)`), relabelled, then cast to uint16 by `compress_spikes_dtypes` — hold exactly the rows of the source file
+when every id is below 65536 (the bound in the property's quantifier; a larger id wraps modulo 2^16 in the model
+as in the code).  The two globs of `compress_spikes_dtypes` match no other file of the output directory. -/
+theorem export_ids (cfg : Cfg) (v : View) (gen : Nat → String) (src : FDir) (h : Convertible cfg ⟨src, []⟩)
+    (attr : String) (srcName : Name)
+    (hattr : (attr = "clusters" ∧ srcName = ["spike_clusters", "npy"]) ∨
+             (attr = "templates" ∧ srcName = ["spike_templates", "npy"]))
+    (e : Entry) (he : src.lookup srcName = some e)
+    (hrows : ∀ r ∈ e.rows, ∃ z, r = Row.z z ∧ 0 ≤ z ∧ z < 65536) :
+    ∃ e', (convertFS cfg v gen ⟨src, []⟩).fs.out.lookup (labelled' cfg.label ["spikes", attr, "npy"]) = some e' ∧
+      e'.rows = e.rows :=
+  Lemmas.export_ids cfg v gen src h attr srcName hattr e he hrows
+
+/-! Non-vacuity: a curated 3-spike source with a temporary file and raw data, label `p0`. -/
+def exView : View :=
+  { rate := 30000, samples := [0, 15000, 45000], times := [0, 1/2, 3/2], spikeClusters := [0, 2, 2], spikeTemplates := [0, 1, 1],
+    amplitudes := [1, 2, 3], nTemplates := 2, channelMap := [0, 1], channelProbes := [0, 0], features := false }
+def exSrc : FDir :=
+  [ (["params", "py"], ⟨"h0", [], false⟩), (["spike_clusters", "npy"], ⟨"h1", [.z 0, .z 2, .z 2], true⟩),
+    (["spike_templates", "npy"], ⟨"h2", [.z 0, .z 1, .z 1], false⟩),
+    (["channel_positions", "npy"], ⟨"h3", tokRows "pos" 2, false⟩), (["temp_wh", "dat"], ⟨"h4", [], false⟩) ]
+def exCfg : Cfg := { sameDir := false, force := false, label := "p0", hasTraces := true }
+def exGen (k : Nat) : String := s!"id{k}"
+
+example : ViewOK exView := by simp [ViewOK, exView]
+example : SrcOK exView exSrc := by
+  intro r hr ho e he
+  simp only [fileRenames, List.mem_cons, List.not_mem_nil, or_false] at hr
+  rcases hr with h | h | h | h | h | h | h | h | h | h | h | h | h | h | h | h <;> subst h <;>
+    first
+    | (exact absurd ho (by decide))
+    | (simp [exSrc, FDir.lookup] at he; done)
+    | (simp [exSrc, FDir.lookup] at he; subst he; decide +kernel)
+example : RowsOK exView [] := by intro f hf; cases hf
+example : GenDistinct exGen 3 := by
+  intro i j hi hj
+  have : ∀ i, i < 3 → i = 0 ∨ i = 1 ∨ i = 2 := by omega
+  rcases this i hi with rfl | rfl | rfl <;> rcases this j hj with rfl | rfl | rfl <;> decide
+example : Convertible exCfg ⟨exSrc, []⟩ := by simp [Convertible, exCfg, exSrc, FDir.has]; decide
+example : (convertFS exCfg exView exGen ⟨exSrc, []⟩).err = none := by decide +kernel
+example : (convertFS exCfg exView exGen ⟨exSrc, []⟩).fs.src.keys =
+    [["params", "py"], ["spike_clusters", "npy"], ["spike_templates", "npy"], ["channel_positions", "npy"],
+     ["_phy_spikes_subset", "spikes", "npy"], ["_phy_spikes_subset", "channels", "npy"],
+     ["_phy_spikes_subset", "waveforms", "npy"]] := by decide +kernel
+example : nClusters exView = 3 := by decide +kernel
+example : ((convertFS exCfg exView exGen ⟨exSrc, []⟩).fs.out.filter (fun f => isObj f.1)).map
+      (fun f => (".".intercalate f.1, firstDim f.1 f.2)) =
+    [("clusters.channels.p0.npy", 3), ("clusters.peakToTrough.p0.npy", 3), ("clusters.uuids.p0.csv", 3),
+     ("channels.rawInd.p0.npy", 2), ("spikes.times.p0.npy", 3), ("spikes.samples.p0.npy", 3),
+     ("spikes.amps.p0.npy", 3), ("templates.amps.p0.npy", 2), ("templates.waveforms.p0.npy", 2),
+     ("templates.waveformsChannels.p0.npy", 2), ("clusters.waveforms.p0.npy", 3),
+     ("clusters.waveformsChannels.p0.npy", 3), ("clusters.amps.p0.npy", 3), ("spikes.depths.p0.npy", 3),
+     ("clusters.depths.p0.npy", 3), ("spikes.clusters.p0.npy", 3), ("spikes.templates.p0.npy", 3),
+     ("channels.localCoordinates.p0.npy", 2)] := by decide +kernel
+example : ((convertFS exCfg exView exGen ⟨exSrc, []⟩).fs.out.lookup ["spikes", "clusters", "p0", "npy"]).map (·.tag) =
+    some "u16:squeeze:h1" := by decide +kernel
+example : ((convertFS exCfg exView exGen ⟨exSrc, []⟩).fs.out.lookup ["spikes", "clusters", "p0", "npy"]).map (·.rows) =
+    some [.z 0, .z 2, .z 2] := by decide +kernel
+example : wrap16 (.z 65537) = .z 1 := by decide
+example : timesOf 30000 [0, 15000, 45000] = [0, 1/2, 3/2] := by decide +kernel
+example : loadSpikeSamples 4 (.inSeconds [1/16, 3/8, 5/8, 7/8] none) = ([0, 2, 2, 4], [1/16, 3/8, 5/8, 7/8]) := by
+  decide +kernel
+example : uuidOKb 2 ["uuids", "a", "b"] = true ∧ uuidOKb 2 ["uuids", "a", "a"] = false := by decide
 
 end PhyVerif.C13
